@@ -14,6 +14,7 @@ from gambatools.dfa import State, Symbol, DFA
 from gambatools.nfa import NFA
 from gambatools.cfg import CFG, Terminal, Variable, Alternative, Rule, DerivationTerm
 from gambatools.list_utility import remove_none, remove_duplicates, remove_if
+from gambatools import _verif
 
 
 class BaetenCFGParser(object):
@@ -310,6 +311,7 @@ def cfg_eliminate_unit_rules_in_place(G: CFG) -> None:
     R1 = R.copy()
 
     for A in V:
+        if _verif.ON: _verif.emit('unit.var', A=str(A))
         W = cfg_derivable_variables(G, A)
         for r in R:
             B = r.variable
